@@ -1,7 +1,8 @@
 (* Raw.v -- model of acquire-driver-common/src/storage/raw.c, function by function.  MODEL ONLY.
    The model describes the code WITH the fixes fam/fileio/fixes/01 (D3) and 02 (D4); the unfixed statements are kept
-   behind the switches of [variant] so that the defects can be exhibited on the model too (Properties_C14/C16:
-   D3_refuted, D4_refuted) and the oracle can be asked for either behaviour. *)
+   behind the switches of [variant] so that the defects can be exhibited on the model too (Properties_C14.v:
+   D3_unrepaired_hole; Properties_C16.v: D4_unrepaired_closes_stdin / _closes_foreign, D5a_unrepaired_diverges,
+   D5b_unrepaired_not_reported, D6_unrepaired_leaks) and the oracle can be asked for either behaviour. *)
 From Coq Require Import String Ascii.
 From Coq Require Import List Arith NArith Bool.
 From FileIO Require Import Pwrite FdTable.
